@@ -1,4 +1,7 @@
+mod c01;
 mod c03;
+mod c04;
+mod c06;
 mod cases;
 mod dev;
 mod exec;
@@ -55,6 +58,12 @@ fn main() {
             match id.as_str() {
                 "C03" => c03::run("C03", tier, seed),
                 "C05" => c03::run("C05", tier, seed),
+                "C04" => c04::run(tier, seed),
+                "C01" => c01::run("C01", tier, seed),
+                "C06" => c06::run(tier, seed),
+                "C11" => c01::run_vec("C11", tier, seed),
+                "C12" => c01::run_vec("C12", tier, seed),
+                "C02" => c01::run("C02", tier, seed),
                 "T" => tdebug(&pos, tier),
                 "BF2" => bf2(&pos),
                 "REF" => refq(&pos),
